@@ -290,6 +290,7 @@ func (r *Runner) setVarWithIndex(prev expand.Variable, name string, index syntax
 			prev.Map = make(map[string]string)
 		}
 		prev.Map[k] = valStr
+		prev.Set = true // "declare -A m" alone leaves it unset
 		r.setVar(name, prev)
 		return
 	}
@@ -303,6 +304,7 @@ func (r *Runner) setVarWithIndex(prev expand.Variable, name string, index syntax
 		}
 	}
 	list, indexes = internal.SetIndexedElem(list, indexes, k, valStr)
+	prev.Set = true // the variable may not have existed before
 	prev.Kind = expand.Indexed
 	prev.List = list
 	prev.Indexes = indexes
